@@ -140,7 +140,9 @@ def addLoose (s : St) (c : Nat) : St :=
 
 /-- one object of `add_streamed_objects_to_pack` -/
 def addPackedStep (t : Tab) (compress noHoles : Bool) (s : St) (c : Nat) : St :=
-  if noHoles && hasRow s c then s else writeObj t s c compress
+  -- the pack to write to is chosen (and, when it changes, created) before the stream is looked at
+  let s1 := openCur t s
+  if noHoles && hasRow s1 c then s1 else writeObj t s1 c compress
 
 /-- `add_objects_to_pack` / `add_streamed_objects_to_pack`; the keys returned are the contents themselves.
     At the granularity of a whole call `no_holes_read_twice` does not influence the result
@@ -202,10 +204,13 @@ def delete (s : St) (ks : List Nat) : St × List Nat :=
   ({ s with loose := s.loose.filter (fun e => !ks.contains e.1),
             rows := s.rows.filter (fun r => !ks.contains r.key) }, gone)
 
-/-- insertion sort of rows by offset (stable) – the model of `ORDER BY offset` -/
+/-- `ORDER BY offset`: SQLite scans the table in rowid order and sorts stably, so ties on the offset come back
+    in rowid order (trusted-base assumption, exercised by the correspondence check on zero-length objects). -/
+def rowBefore (a b : Row) : Bool := a.off < b.off || (a.off == b.off && a.id < b.id)
+
 def insByOff (r : Row) : List Row → List Row
   | [] => [r]
-  | x :: xs => if r.off < x.off then r :: x :: xs else x :: insByOff r xs
+  | x :: xs => if rowBefore r x then r :: x :: xs else x :: insByOff r xs
 
 def sortByOff : List Row → List Row
   | [] => []
@@ -223,22 +228,16 @@ def rebuild (t : Tab) (p : Nat) : List Row → List Bool → Nat → List Seg ×
     let (gs, rs') := rebuild t p rs zs.tail (off + g.len t)
     (g :: gs, { r with pack := p, off := off, len := g.len t, z := z' } :: rs')
 
-def isSortedByOff : List Row → Bool
-  | [] => true
-  | [_] => true
-  | a :: b :: rest => a.off ≤ b.off && isSortedByOff (b :: rest)
-
-/-- `repack_pack p`.  `order` = keys of the pack's rows in the order they were copied (the `ORDER BY offset`
-    result, ties resolved as observed), `zs` = verdicts. -/
+/-- `repack_pack p`.  The rows are copied in `ORDER BY offset` order (`sortByOff`); `order` is the observed
+    order of keys (cross-checked, not trusted), `zs` = verdicts. -/
 def repackPack (t : Tab) (s : St) (m : Mode) (p : Nat) (order : List Nat) (zs : List Bool) : Option St :=
   let rs := rowsOfPack s.rows p
   match rs with
   | [] => if order.isEmpty then some { s with packs := erasePack s.packs p } else none
   | _ =>
-    let ordered := order.filterMap (fun k => findRow rs k)
-    if !(nodupB order && isPerm order (rs.map (·.key))) then none
+    let ordered := sortByOff rs
+    if order != ordered.map (·.key) then none
     else if zs.length != order.length then none
-    else if !isSortedByOff ordered then none
     else if !((ordered.zip zs).all (fun rz => verdictOK m rz.1.z rz.1.len rz.1.size rz.2)) then none
     else
       let (gs, rs') := rebuild t p ordered zs 0
@@ -288,13 +287,18 @@ def reopen (s : St) : St := { s with cur := 0 }
     holds, `order` = the order in which those that are actually stored were written (a permutation of the
     needed ones).  Same hash type: contents the destination has in any form are filtered out beforehand.
     Different hash types: `no_holes` + read-twice, so contents already *indexed* are skipped. -/
-def importObjs (t : Tab) (s : St) (written : List Nat) (order : List Nat) (compress sameHash : Bool) : Option St :=
+def importObjs (t : Tab) (s : St) (written : List Nat) (order : List Nat) (compress sameHash trailingSkip : Bool) :
+    Option St :=
   let needed := if sameHash then written.filter (fun c => !has s c) else written.filter (fun c => !hasRow s c)
   let streams := if sameHash then needed else written
   if !(nodupB written && nodupB order && isPerm order needed) then none
+  else if trailingSkip && streams.length == needed.length then none
   else match streams with
     | [] => some s
-    | _ => some (writeAll t (openCur t s) (order.map (fun c => (c, compress))))
+    | _ =>
+      let s1 := writeAll t (openCur t s) (order.map (fun c => (c, compress)))
+      -- a skipped (already indexed) stream that is processed after the last write still selects its pack first
+      some (if trailingSkip then openCur t s1 else s1)
 
 /-! ### views -/
 
